@@ -8,6 +8,17 @@ V = Path(__file__).resolve().parent.parent
 ALL = [f'C{n:02d}' for n in range(1, 21)]
 
 CHECKS = {
+    'C01': dict(
+        cat='model_checking', ref='DESIGN.md section 5 C01',
+        text='LevelizedDef.tla states the documented levelized-cost definition of the three economic models x six end-use branches; '
+             'Levelized.tla explores it exhaustively over small constants (sanity invariants + the homogeneity/monotonicity lemmas '
+             'C11/C18 rely on); every vector TLC dumps is replayed into the real CalculateLCOELCOHLCOC; economics snapshots of '
+             'real runs over every (economic model, end-use branch) incl. add-on recomputation and SBT examples are validated by '
+             'TraceLevelized.tla in exact rational arithmetic (check fails as machinery failure if any of the 18 model/branch '
+             'combinations was not exercised by a real run).',
+        note='Trusted: TLC, BigInteger rationals, float projection. Tolerance 1e-9 relative. CLGS/AGS (model 4) and SUTRA not covered. '
+             'Continuous inputs sampled by seed.',
+        tech='TLA+ spec (LevelizedDef/Levelized.tla) model-checked with TLC; TLC-generated vectors replayed into code; TLC trace validation'),
     'C04': dict(
         cat='model_checking', ref='DESIGN.md section 5 C04',
         text='CashFlow.tla (cash-flow assembly loops and payback scan as a loop machine) is model-checked exhaustively over small series of every sign pattern incl. negative capital cost; the same small series are replayed into the real CalculateRevenue, calculate_npv and CalculateFinancialPerformance; economics snapshots of real runs (all end-uses, plants, economic models, add-ons, carbon, sign-pattern drivers, examples) are validated year by year by TraceCashFlow.tla in exact rational arithmetic (cf, cum, per-product revenue, NPV both conventions, IRR residual, VIR, MOIC, payback, N/A).',
